@@ -106,6 +106,21 @@ TARGETS = [
     dict(name="wrath_encrypt_server_header", file="src/wrath_header/encrypt.rs", fn="encrypt_server_header", kind="method",
          fields=[("encrypt", "opaque"), ("server_header", ("arr", "u8"))], helpers=[], free_helpers=["set_large_header"],
          externs={"self.encrypt": ("ext_apply", "self.encrypt")}, ret=("arr", "u8"), consts={"SERVER_HEADER_MINIMUM_LENGTH": ("wrath_server_header_min_length", "u8")}),
+    dict(name="wrath_encrypt_client_header", file="src/wrath_header/encrypt.rs", fn="encrypt_client_header", kind="method", fields=[("encrypt", "opaque")], helpers=[],
+         externs={"self.encrypt": ("ext_apply", "self.encrypt")}, ret=("arr", "u8")),
+    dict(name="wrath_decrypt_client_header", file="src/wrath_header/decrypt.rs", fn="decrypt_client_header", kind="method", fields=[("decrypt", "opaque")], helpers=[],
+         externs={"self.decrypt": ("ext_apply", "self.decrypt")}, ret="N * N",
+         opt_calls={"ClientHeader::from_array": ("tr_vanilla_client_header_from_array", "hdr")}),
+    dict(name="wrath_write_encrypted_client_header", file="src/wrath_header/encrypt.rs", fn="write_encrypted_client_header", kind="method", fields=[("encrypt", "opaque")], helpers=[],
+         io_params={"write": "writer"}, ext_params=["ext_apply"], ret="unit",
+         self_calls={"encrypt_client_header": ("tr_wrath_encrypt_client_header ext_apply", ["self.encrypt"], ("arr", "u8"))}),
+    dict(name="wrath_write_encrypted_server_header", file="src/wrath_header/encrypt.rs", fn="write_encrypted_server_header", kind="method",
+         fields=[("encrypt", "opaque"), ("server_header", ("arr", "u8"))], helpers=[],
+         io_params={"write": "writer"}, ext_params=["ext_apply"], ret="unit",
+         self_calls={"encrypt_server_header": ("tr_wrath_encrypt_server_header ext_apply", ["self.encrypt", "self.server_header"], ("arr", "u8"))}),
+    dict(name="wrath_read_and_decrypt_client_header", file="src/wrath_header/decrypt.rs", fn="read_and_decrypt_client_header", kind="method", fields=[("decrypt", "opaque")], helpers=[],
+         io_params={"reader": "reader"}, ext_params=["ext_apply"], ret="hdr",
+         self_calls={"decrypt_client_header": ("tr_wrath_decrypt_client_header ext_apply", ["self.decrypt"], "hdr")}),
     dict(name="srp_calculate_password_verifier", file="src/srp_internal.rs", fn="calculate_password_verifier", kind="formula",
          calls={"calculate_x": ("calculate_x", "pure")}),
     dict(name="srp_calculate_server_public_key", file="src/srp_internal.rs", fn="calculate_server_public_key", kind="formula",
@@ -260,6 +275,8 @@ def method(t, src):
     for f, ty in t["fields"]:
         env["self." + f] = ("s_" + f, ty)
     consts = dict(CONSTS); consts.update(t.get("consts", {}))
+    if t["file"].startswith("src/wrath_header/"):
+        consts.update({"CLIENT_HEADER_LENGTH": ("wrath_client_header_length", "u8")})
     if t["file"].startswith("src/tbc_header/"):
         consts.update({"SERVER_HEADER_LENGTH": ("tbc_server_header_length", "u8"), "CLIENT_HEADER_LENGTH": ("tbc_client_header_length", "u8")})
     g = Gen(env, consts, helpers)
